@@ -9,6 +9,7 @@ import (
 	"math"
 	"sort"
 	"strings"
+	"sync"
 
 	"verif/schema"
 )
@@ -437,8 +438,74 @@ func RecValues(r *schema.Record, depth int, limit int) []*RecValue {
 	return out
 }
 
+// spread picks the k-th of n values out of l. Without a limit it cycles through all of them; when a nested record is cut
+// down to a few values (limit > 0) it takes the first, the LAST (containers list their fullest values last) and values
+// spread in between, so that nested containers are not left empty.
+func spread(k, n, l, limit int) int {
+	if limit <= 0 || l <= n || n < 2 || k >= n {
+		return k % l
+	}
+	switch k {
+	case 0:
+		return 0
+	case 1:
+		return l - 1
+	}
+	return (k - 1) * (l - 1) / (n - 1)
+}
+
+var (
+	selfRefMu sync.Mutex
+	selfRef   = map[*schema.Record]bool{}
+)
+
+// selfReferential reports whether r can reach itself through its fields / branches (such records need a depth guard;
+// all others are finite by construction and are enumerated in full however deeply they are nested).
+func selfReferential(r *schema.Record) bool {
+	selfRefMu.Lock()
+	defer selfRefMu.Unlock()
+	if v, ok := selfRef[r]; ok {
+		return v
+	}
+	seen := map[*schema.Record]bool{}
+	var reach func(x *schema.Record) bool
+	var reachT func(t *schema.Type) bool
+	reachT = func(t *schema.Type) bool {
+		switch t.Kind {
+		case schema.ArrayT, schema.MapT:
+			return reachT(t.Elem)
+		case schema.RecT:
+			if t.Rec == r {
+				return true
+			}
+			return reach(t.Rec)
+		}
+		return false
+	}
+	reach = func(x *schema.Record) bool {
+		if seen[x] {
+			return false
+		}
+		seen[x] = true
+		for _, f := range x.Fields {
+			if reachT(f.Type) {
+				return true
+			}
+		}
+		for _, b := range x.Branches {
+			if b.Rec == r || reach(b.Rec) {
+				return true
+			}
+		}
+		return false
+	}
+	v := reach(r)
+	selfRef[r] = v
+	return v
+}
+
 func recValues(r *schema.Record, depth int, limit int) []*RecValue {
-	if depth > 3 {
+	if (depth > 3 && selfReferential(r)) || depth > 12 {
 		// recursion guard for self-referential records: only the smallest values
 		switch r.Kind {
 		case schema.Message:
@@ -476,7 +543,7 @@ func recValues(r *schema.Record, depth int, limit int) []*RecValue {
 				if len(fv[i]) == 0 {
 					return nil
 				}
-				rv.Fields[i] = fv[i][k%len(fv[i])]
+				rv.Fields[i] = fv[i][spread(k, n, len(fv[i]), limit)]
 			}
 			out = append(out, rv)
 		}
@@ -503,7 +570,7 @@ func recValues(r *schema.Record, depth int, limit int) []*RecValue {
 			rv := &RecValue{R: r, Fields: make([]*Value, nf)}
 			for i := range r.Fields {
 				if mask&(1<<i) != 0 && len(fv[i]) > 0 {
-					rv.Fields[i] = fv[i][k%len(fv[i])]
+					rv.Fields[i] = fv[i][spread(k, n, len(fv[i]), limit)]
 				}
 			}
 			out = append(out, rv)
